@@ -52,7 +52,8 @@ ASSUMPTIONS = [
 def gen_case(r, index, tier):
     W = r.choice([4, 6, 8, 10, 16, 24])
     H = max(2, int(round(W * r.choice([0.1, 0.25, 0.5, 1, 1, 2, 4, 8]))))   # from square to very elongated dies
-    die = {"family": r.choice(["dyadic", "decimal"]), "scale_exp": r.choice([0, 0, 1]), "nx": W, "ny": H, "regions": []}
+    die = {"family": r.choice(["dyadic", "decimal"]), "scale_exp": r.weighted([(0, 5), (1, 2), (-3, 1), (-4, 1), (3, 1), (5, 0.5)]),
+           "nx": W, "ny": H, "regions": []}
     nl = designs.gen_netlist(r, die, nmods=r.randint(3, 9), kinds=["soft", "soft", "soft", "fixed", "terminal"],
                              allow_terminals=True, need_centers=True, connected=r.chance(0.7), allow_regions=False)
     mods = nl["modules"]
